@@ -16,6 +16,41 @@ EXPLANATION = (
 TECHNIQUE = "static analysis: kind-set agreement between producer and consumers + provenance of TextEdit ranges"
 
 
+PASS_THROUGH = {'node', 'unwrap', 'expect', 'clone', 'deref', 'as_ref', 'branch', 'into', 'from', 'borrow'}
+IDENT_SOURCES = {'identifier', 'first', 'qualifier'}
+
+
+def producers(fn, local, idx, depth=0, seen=None, fld=None):
+    """terminal producer call names of a local, one per reaching definition (match arms are kept apart; tuple
+    aggregates are followed field-sensitively)"""
+    seen = seen if seen is not None else set()
+    if depth > 12 or (local, fld) in seen:
+        return []
+    seen = seen | {(local, fld)}
+    out = []
+    for kind, bi, st in idx.get(local, []):
+        if kind == 'call':
+            info = callee_of(st)
+            name = P.strip(info['def']).split('::')[-1] if info else '<indirect>'
+            if name in PASS_THROUGH and st['args'] and 'l' in st['args'][0]:
+                out += producers(fn, st['args'][0]['l'], idx, depth + 1, seen, MF._first_field(st['args'][0])) or [name]
+            else:
+                out.append(name)
+        elif kind == 'assign':
+            rv = st['rv']
+            if rv['r'] in ('use', 'cast') and 'l' in rv['op']:
+                out += producers(fn, rv['op']['l'], idx, depth + 1, seen, MF._first_field(rv['op']))
+            elif rv['r'] == 'ref':
+                out += producers(fn, rv['place']['l'], idx, depth + 1, seen, MF._first_field(rv['place']))
+            elif rv['r'] == 'aggr' and rv.get('ak') == 'tuple' and fld is not None and fld < len(rv['ops']) and 'l' in rv['ops'][fld]:
+                out += producers(fn, rv['ops'][fld]['l'], idx, depth + 1, seen, MF._first_field(rv['ops'][fld]))
+            elif rv['r'] == 'aggr' and rv.get('variant') == 'Some' and rv['ops'] and 'l' in rv['ops'][0]:
+                out += producers(fn, rv['ops'][0]['l'], idx, depth + 1, seen, None)
+            else:
+                out.append('<' + rv['r'] + '>')
+    return out
+
+
 def r2_edit_prov(c, facts):
     R = c.rule('C18.R2', 'EDIT-PROV: every edit replaces exactly one identifier node with the new name')
     n = 0
@@ -32,6 +67,13 @@ def r2_edit_prov(c, facts):
             names = [P.strip(x).split('::')[-1] for x, _, _ in rs['calls']]
             via_loc = 'node_location' in names or 'find_references' in names
             ident = any(x in names for x in ('identifier', 'first', 'find_references', 'qualifier'))
+            # every reaching definition of the node handed to node_location must be an identifier node
+            for n2, t2, _ in rs['calls']:
+                if P.strip(n2).endswith('handlers::node_location') and 'l' in t2['args'][1]:
+                    prods = producers(fn, t2['args'][1]['l'], idx)
+                    if not prods or any(x not in IDENT_SOURCES for x in prods):
+                        ident = False
+                    inst_prod = prods
             ns = MF.slice_back(fn, t['args'][1]['l'], idx) if 'l' in t['args'][1] else {'args': set()}
             newname = 3 in ns['args']      # parameter `new_name`
             inst = {'fn': q, 'line': t['ln'], 'range_from': sorted(set(names) & {'node_location', 'find_references', 'identifier', 'first', 'qualifier'}), 'text_is_new_name': newname}
@@ -74,5 +116,8 @@ def r2_edit_prov(c, facts):
 
 
 def run(c, facts):
+    import c17
     c.run(lambda c: c08.r5_binder_kind(c, facts, rule='C18.R1', crates=('oal_client',)))
     c.run(r2_edit_prov, facts)
+    R3 = c.rule('C18.R3', 'IDENT-LOC: reference edits replace exactly the unqualified identifier (shared with C17.R2)')
+    c.shared(R3, c17.r2_ident_loc, 'C17.R2', facts)
